@@ -1,6 +1,7 @@
 """C04 - event delivery is complete, exactly-once, on time and in timestamp order (DESIGN §7 C04)."""
 from shell import c04
 
+from shell import replayers
 ID = "C04"
 LEVEL = "other"
 FUNCTIONS = ["body:Transmitter._create_partitions#0", "body:IEvent.notify#0", "TradingEnv.notify"]
@@ -15,3 +16,7 @@ LEVEL_TEXT = ("Deductive kernel: (i) the partition slot of an arbitrary event (b
 EXPLANATION = LEVEL_TEXT
 NOT_DEDUCTIVE = ["whole-episode conclusions (completeness across the replay window, repeated episodes on one environment, global order of the log): bounded shell; "
                  "Transmitter._reset/_next (numpy masks, itertools) and TradingEnv._process_*_events (ASSUMED contracts) are not verified deductively"]
+
+REPLAYERS = [
+    ("Transmitter._create_partitions::loop0::body", replayers.partition_slot),
+]
